@@ -28,6 +28,8 @@ type Parser struct {
 	nextNewline        bool
 	continuationNeeded bool
 	prevPos            int
+	depth              int  // current nesting of expressions being parsed, see MaxDepth.
+	aborted            bool // nesting went over MaxDepth: no more tokens are read nor errors recorded.
 
 	errors []string
 
@@ -140,10 +142,25 @@ func (p *Parser) Errors() []string {
 	return p.errors
 }
 
+// MaxDepth is the maximum nesting of expressions/blocks (and length of operator chains) accepted:
+// parsing, printing and expanding a tree recurse on its depth and Go stack overflows are fatal.
+const MaxDepth = 10_000
+
+func (p *Parser) addError(msg string) {
+	if p.aborted {
+		return // only the "too deep" error is kept, not the ones caused by unwinding.
+	}
+	p.errors = append(p.errors, msg)
+}
+
 func (p *Parser) nextToken() {
 	p.prevToken = p.curToken
 	p.curToken = p.peekToken
 	p.prevPos = p.l.Pos()
+	if p.aborted {
+		p.peekToken = token.EOFT
+		return
+	}
 	p.peekToken = p.l.NextToken()
 	p.prevNewline = p.nextNewline
 	p.nextNewline = p.l.HadNewline()
@@ -280,21 +297,47 @@ func (p *Parser) ErrorLine(forPreviousToken bool) (string, int) {
 
 func (p *Parser) peekError(t token.Type) {
 	log.Debugf("peekError: %s", t)
+	if p.aborted {
+		return // don't build (possibly huge) error lines while unwinding.
+	}
 	errLine, lineNum := p.ErrorLine(false)
 	msg := fmt.Sprintf("%d: expected next token to be `%s`, got `%s` instead:\n%s",
 		lineNum, token.ByType(t).Literal(), p.peekToken.Literal(), errLine)
-	p.errors = append(p.errors, msg)
+	p.addError(msg)
 }
 
 func (p *Parser) noPrefixParseFnError(t *token.Token) {
 	log.Debugf("Adding noPrefixParseFnError: %s", t.DebugString())
+	if p.aborted {
+		return
+	}
 	errLine, lineNum := p.ErrorLine(true)
 	msg := fmt.Sprintf("%d: no prefix parse function for `%s` found:\n%s", lineNum, t.Literal(), errLine)
-	p.errors = append(p.errors, msg)
+	p.addError(msg)
+}
+
+// Too deeply nested input: record one error and stop consuming input so the recursion unwinds quickly.
+func (p *Parser) abortTooDeep() {
+	if p.aborted {
+		return
+	}
+	_, _, lineNum := p.l.CurrentLine()
+	p.addError(fmt.Sprintf("%d: expression nesting too deep (more than %d levels)", lineNum, MaxDepth))
+	p.aborted = true
+	p.continuationNeeded = false
+	p.curToken = token.EOFT
+	p.peekToken = token.EOFT
 }
 
 func (p *Parser) parseExpression(precedence ast.Priority) ast.Node {
 	log.Debugf("parseExpression: %s precedence %s", p.curToken.DebugString(), precedence)
+	startDepth := p.depth
+	defer func() { p.depth = startDepth }()
+	p.depth++
+	if p.depth > MaxDepth {
+		p.abortTooDeep()
+		return nil
+	}
 	if p.curToken.Type() == token.EOL {
 		log.Debugf("parseExpression: EOL")
 		p.continuationNeeded = true
@@ -333,6 +376,11 @@ func (p *Parser) parseExpression(precedence ast.Priority) ast.Node {
 		p.nextToken()
 
 		leftExp = infix(leftExp)
+		p.depth++ // each operator of a chain a+b+c... makes the tree one level deeper.
+		if p.depth > MaxDepth {
+			p.abortTooDeep()
+			return nil
+		}
 	}
 	return leftExp
 }
@@ -365,7 +413,7 @@ func (p *Parser) parseFloatLiteral() ast.Node {
 	if err != nil {
 		errLine, lineNum := p.ErrorLine(false)
 		msg := fmt.Sprintf("%d: could not parse %q as float:\n%s", lineNum, p.curToken.Literal(), errLine)
-		p.errors = append(p.errors, msg)
+		p.addError(msg)
 		return nil
 	}
 	lit := &ast.FloatLiteral{}
@@ -468,7 +516,7 @@ func (p *Parser) parseLambdaMulti(left ast.Node, more ...ast.Node) ast.Node {
 	t, ok := okParamList(lambda.Parameters)
 	if !ok {
 		errLine, lineNum := p.ErrorLine(false)
-		p.errors = append(p.errors, fmt.Sprintf("%d: lambda parameters must be identifiers, not %s\n%s",
+		p.addError(fmt.Sprintf("%d: lambda parameters must be identifiers, not %s\n%s",
 			lineNum, t.Literal(), errLine))
 		return nil
 	}
